@@ -269,6 +269,9 @@ def run_check(prop, tier, seed):
             shards.append(Shard(j, a, b, jid))
             jid += 1
             a = b
+    # the small slices pinned to 1-3 CPUs go first: they are cheap, and on a loaded machine
+    # they must not be the ones that are never started when a slow engine eats the watchdog
+    shards.sort(key=lambda sh: 0 if (sh.job.get("cpus") or 99) <= 3 else 1)
     workers = int(os.environ.get("VERIF_JOBS", "16"))
     deadline = plan.get("watchdog_s", 900 if tier == "quick" else 5400)
     done = []
